@@ -10,14 +10,16 @@ KEYS = {"outputs", "derived", "flow_rates", "comp_rates"}
 SPEC_KEYS = set()
 
 
-def parameterise_sites(p, rng, prob=0.6):
+def parameterise_sites(p, rng, prob=0.6, directed_split=False):
     """every numeric literal of the definition (rates, adjustments, splits, infectiousness, mixing, distribution,
     interpolation points and values, function-output constants) may become a named parameter with the same value,
     so that it is dynamic in the runner"""
     q = copy.deepcopy(p)
     extra = {}
+    groups = []     # names of the parameters standing for the population split of one stratification
 
     def sub(e, allow=True):
+        nonlocal prob
         if isinstance(e, str):
             if e == "t" or not allow or rng.random() > prob:
                 return e
@@ -43,12 +45,18 @@ def parameterise_sites(p, rng, prob=0.6):
     for o in q["ops"]:
         k = o["op"]
         if k == "pop":
-            o["dist"] = {c: sub(v) for c, v in o["dist"].items()}
+            # (directed_split: a distribution of plain numbers under population splits that are all parameters)
+            o["dist"] = {c: sub(v, allow=not directed_split) for c, v in o["dist"].items()}
         elif k in ("flow", "udeath"):
             o["param"] = sub(o["param"])
         elif k == "strat":
             if o.get("split"):
+                if directed_split:
+                    keep_, prob = prob, 1.0
                 o["split"] = {s: sub(v) for s, v in o["split"].items()}
+                if directed_split:
+                    prob = keep_
+                groups.append([v["p"] for v in o["split"].values() if isinstance(v, dict) and "p" in v and v["p"] in extra])
             o["fadj"] = [[fn, {s: subadj(a) for s, a in adjs.items()}, sf, df] for fn, adjs, sf, df in o.get("fadj", [])]
             o["iadj"] = {c: {s: subadj(a) for s, a in adjs.items()} for c, adjs in (o.get("iadj") or {}).items()}
             if o.get("mix") is not None:
@@ -58,7 +66,7 @@ def parameterise_sites(p, rng, prob=0.6):
             o["req"]["params"] = [sub(e) for e in o["req"]["params"]]
         elif k == "cv":
             o["e"] = sub(o["e"])
-    return q, extra
+    return q, extra, groups
 
 
 def kernel_cases(rng, n):
@@ -134,9 +142,14 @@ def run(tier, seed):
                 wl = [o for o in base["ops"] if o["op"] == "whitelist"]
                 base["ops"] = [o for o in base["ops"] if o["op"] != "whitelist"] + \
                     [{"op": "req", "name": "cst", "save": True, "req": {"type": "cum", "source": srcs[0], "start": str(t0_ + h_)}}] + wl
-        p, extra = parameterise_sites(base, g.rng)
+        p, extra, groups = parameterise_sites(base, g.rng, directed_split=(i % 3 == 1))
         pv = dict(g.params_values(small=True), **extra)
         pv2 = dict(g.params_values(small=True), **extra)      # same structure-relevant values, other rates
+        for grp in groups:
+            # ... and the parameterised shares of a population split handed round (they still add up to what they did)
+            if len(grp) >= 2:
+                for a_, b_ in zip(grp, grp[1:] + grp[:1]):
+                    pv2[a_] = extra[b_]
         p["obs"] = [{"obs": "struct"}]
         progs.append((p, pv, pv2))
     out = []
@@ -189,6 +202,12 @@ def run(tier, seed):
                                    "kind": "value-dependent Python control flow / concretisation in the traced run function"}, True))
                     continue
                 if "error" in ra:
+                    continue
+                if ra.get("reuse_vs_fresh"):
+                    extra.append(("oracle: %s runner compiled with one parameter set and run with another differs from a runner compiled with "
+                                  "that other set by %.3g (relative); first rows %s" % (solver, ra["reuse_vs_fresh"], json.dumps(ra.get("reuse_row0"))[:300]),
+                                  {"program": checklib.strip_meta(p), "obs": j, "solver": solver,
+                                   "kind": "a run-time quantity folded into the compiled runner"}, True))
                     continue
                 if json.dumps(ra, sort_keys=True) != json.dumps(rb, sort_keys=True):
                     extra.append(("oracle: %s runner gives different numbers when traced (both parameter sets on one compiled runner)" % solver,
